@@ -232,4 +232,17 @@ def validate_impl(trace, wd, name, cfg, setup_text, progs, timeout=900):
     rc, out = rv.run_tlc(wd, m, c, workers=1, env={"TRACE": trace}, timeout=timeout, heap="3g")
     if "TRACE-CONSUMED" not in out:
         raise ToolError("TraceSyncImpl did not consume %s: %s" % (trace, out[-2500:]))
+    m = re.search(r'<<"LABELS", \{([^}]*)\}>>', out)
+    LABELS_SEEN.update(re.findall(r'"([a-z_.]+)"', m.group(1)) if m else [])
     return [(int(a), int(b), w) for a, b, w in re.findall(r'<<"DRIFT", (\d+), (-?\d+), "([^"]*)">>', out)]
+
+
+# micro-op labels the real code executed under the controlled scheduler in this process's validations
+LABELS_SEEN = set()
+
+
+def all_labels():
+    """Every label of the micro-op table (the CASE arms of ArenaSync!Access)."""
+    src = open(os.path.join(rv.SPEC, "ArenaSync.tla")).read()
+    body = src[src.index("Access(p, l) == CASE"):src.index("\\* ---------------------------------------------------------------- continuations")]
+    return sorted(set(re.findall(r'p = "([a-z_.]+)"\s*->', body)))
